@@ -2,7 +2,7 @@
 Require Extraction.
 Require Import ExtrOcamlBasic.
 From Coq Require Import ZArith.
-From Verif Require Import Region.Model Region.Converge Region.PdCodec Region.Peers Region.InvCheck Region.ReadCtx Region.GroupFilter.
+From Verif Require Import Region.Model Region.Converge Region.PdCodec Region.Peers Region.InvCheck Region.ReadCtx Region.GroupFilter Region.StoreResolve.
 Extraction Language OCaml.
 Extraction "region_model.ml"
   empty_cache contains contains_by_end search insert_region insert_new
@@ -11,5 +11,5 @@ Extraction "region_model.ml"
   group_assign groups_of list_region_ids
   invalidate update_leader rpc_ctx on_send_fail re_resolve switch_work set_work invalidate_r store_epoch on_bucket_version_not_match update_buckets locate_bucket_full bk_ver on_epoch_not_match gc
   upd_entry expire_r set_flags get_by_verid entry_at
-  merge_all ranges_after_key regions_have_gap new_region r_verid store_reply codec_pd new_region_peers cinv_parts cinvb truth_wfb hist_parts hist_okb rpc_ctx_read group_assign_f eq_start
+  merge_all ranges_after_key regions_have_gap new_region r_verid store_reply codec_pd new_region_peers cinv_parts cinvb truth_wfb hist_parts hist_okb rpc_ctx_read group_assign_f eq_start store_check
   Z.of_N (* only so that the type z exists for ocaml/common/common.ml *).
